@@ -550,7 +550,7 @@ func run(c *core.Ctx) {
 	case 3:
 		st = pred.Style{Case: true, Parens: true, Whitespace: true}
 	}
-	nchains := 8
+	nchains := 7
 	for k := 0; k < nchains; k++ {
 		cc := genChain(r, st, len(table))
 		desc := cc.desc()
@@ -627,11 +627,13 @@ func run(c *core.Ctx) {
 var Engine = &core.Engine{
 	ID:    "C02",
 	Level: "exploration",
-	Rule: "seeded random tables (0..12 rows, NULLs, duplicates) x chains of 1..4 Where/Not/Or calls (first call never Or) whose units are random condition trees (depth<=3) rendered as raw '?' string, @named string, map, struct, clause.Expression tree (Eq/Neq/Lt/Lte/Gt/Gte/Like/IN/And/Or/Not), grouped sub-builder or several of those handed to one call, with random keyword case / whitespace / redundant parentheses in 3 of 4 cases; a Where or inline unit behind another unit may be an empty map or a zero struct (adds no condition) " +
+	Rule: "seeded random tables (0..12 rows, NULLs, duplicates; in 1 of 4 the first row has the key 0) x chains of 1..4 Where/Not/Or calls (first call never Or) whose units are random condition trees (depth<=3) rendered as raw '?' string, @named string, map, struct, clause.Expression tree (Eq/Neq/Lt/Lte/Gt/Gte/Like/IN/And/Or/Not), grouped sub-builder or several of those handed to one call, with random keyword case / whitespace / redundant parentheses in 3 of 4 cases; " +
+		"further unit forms (units.go): raw strings whose AND / OR stand directly next to a placeholder, a string literal, a quoted identifier (\"b\", `b`, [b]), a block or line comment (a = ?OR\"b\" = ?, 'ab'OR, OR/**/b, OR--x<newline>b), values as placeholder or literal, '?' and @named; hand-built expressions (one or two values in a call): clause trees, clause.Expr, clause.NamedExpr (plain and tight text) alone or inside single-member clause.And / clause.Or wrappers (Or(e), Or(Or(e)), Or(And(e)), And(Or(e)), Not(Or(e)), Or(e, Or(f)), Or(Or(e), f)); grouped sub-builders whose own calls (Where/Not/Or/Clauses) carry these forms; a Where step whose values are all expressions is attached through db.Clauses(...) in half of the cases (same meaning as Where), also inside sub-builders and scope functions; " +
+		"a Where or inline unit behind another unit may be an empty map or a zero struct (adds no condition) " +
 		"x finishers Find (also spelt Model.Scan, Model.Rows), Find/First/Delete + inline condition, Pluck, Count, Update (also Updates(map), UpdateColumn, UpdateColumns(map)), Delete, First/Update/Delete with primary key in the model value, and Update/Updates/Delete/First with a (full or unmatched) two-part key in the model value on a composite-key twin table; " +
-		"per table also: 3 chains on a soft-delete twin (expectation: chain AND not marked); key placements (1 chain on the plain and the composite-key table, 2 on the soft-delete table): the key in the finisher's value, in Model() with a keyless finisher value, in both, as a slice of records (key IN ...), for Delete / Update / Updates(map | struct | &struct) / Updates(&record with key) / First / Take / Last, present and absent keys - the key is one more AND unit of the last OR group; " +
+		"per table also: 3 chains on a soft-delete twin (expectation: chain AND not marked); key placements (1 chain on the plain and the composite-key table, 2 on the soft-delete table; plain and soft-delete table in 1 of 3 with a row whose key is 0): the key in the finisher's value, in Model() with a keyless finisher value, in both, as a slice of 1..3 records (key IN ...) any of which may carry no key (no record with a key = no key unit), for Delete / Update / Updates(map | struct | &struct) / Updates(&record with key) / First / Take / Last, present and absent keys, every value as pointer, pointer to pointer, plain value, slice of pointers (&[]*T, pointer to that, []*T) - the key is one more AND unit of the last OR group; " +
 		"scope programs (3 per table): the chain's 2..5 condition calls spread over functions handed to Scopes, which hand further functions to Scopes (depth <= 3, empty and forwarding-only functions included), on the plain or soft-delete table, finishers Find / Pluck / Count then Pluck on one reusable handle / Update / Delete / First, Update, Delete with key / Model(key).Delete(keyless); one of the three is a grouped sub-builder carrying such scopes, db.Where(db.Scopes(...)), followed by 0..2 plain calls; scope siblings on a shared handle; numeric strings as key; " +
-		"distinct = (op, form, tree shape, canonical-or-hostile rendering) per unit + finisher spelling (+ table, key placement, scope depth); non-trivial = the reference selects neither no row nor every row",
+		"distinct = (op, form, tree shape, canonical-or-hostile rendering) per unit + finisher spelling (+ table, key placement and value forms, keyless records in the slice, zero-key row, scope depth); non-trivial = the reference selects neither no row nor every row",
 	Assumptions: []string{
 		"SQLite evaluates the emitted SQL correctly (it is the judge of what the SQL text means)",
 		"lower-case ASCII strings only in condition values, so SQLite's case-insensitive LIKE agrees with the reference",
@@ -640,8 +642,11 @@ var Engine = &core.Engine{
 		"composite keys in the model value always have all parts non-zero (gorm reads a partly zero key differently in Update and Delete, the statement fixes neither); several condition values in one call are never given to Not",
 		"an empty map / zero struct is generated only as a Where or inline unit that follows a unit which adds a condition, never under Not or Or and never first in the chain (alone it would leave an Or call first in its group, which the quantifier excludes)",
 		"scope programs: gorm runs scope functions after the chain's own calls and functions registered by a function after all functions of the same round; an Or call is generated only when that order is the order in which the program reads (depth first), otherwise every call of the program is Where or Not, whose order is immaterial; a sub-builder with scopes is used under Where only, and is not followed by Or when its own calls and directly registered scopes add no condition",
-		"Model(value with key) followed by a read into another destination is not judged (gorm adds no key condition there; observed only on the composite table); a record carrying a key is never given to Updates together with a different key in Model() (that would assign the key column)",
-		"slices of records as model value carry only non-zero keys",
+		"Model(value with key) followed by a read into another destination is not judged (gorm adds no key condition there; observed only on the composite table); a record carrying a key is never given to Updates together with a different key in Model(), and never to Updates as a plain value (both would assign the key column)",
+		"a single-member clause.Or(x) is gorm's own notation for 'joined with OR': it is generated as the only value of a call (meaning x), inside other single-member wrappers and as a member of a clause.Or list, never as a member of a clause.And list or next to another value of the same call (gorm reads And(a, Or(x)) as a OR x; the statement does not fix that reading); a wrapper over an AND tree is not given to Not",
+		"tight raw strings use only spellings that SQLite accepts: no gap only where the neighbour of AND / OR is not a word character; an @name is always followed by whitespace; no '?' or '@' inside literals and comments",
+		"a plain (non-pointer) value is not given to a read finisher, nor to Delete on the soft-delete table (gorm refuses it: ErrInvalidValue); slices of pointers hold no nil element (gorm panics on it in Update)",
+		"a row with key 0 exists only on the single-column-key tables; a record naming it is a record without key",
 	},
 	Cases: func(tier string) int {
 		if tier == "thorough" {
